@@ -130,11 +130,14 @@ def checkShown (h : List Ev) (s : Shown) : Option String :=
 
 structure Tracker where
   flows : List (Nat × List Ev) := []
+  /-- the session left the specification's domain (a record whose template lacks elements, `omit=`:
+      the aggregation may refuse it half-way): nothing is judged until the next session starts -/
+  off : Bool := false
   deriving Repr, Inhabited
 
 def Tracker.hist (t : Tracker) (k : Nat) : List Ev := ((t.flows.find? (·.1 == k)).map (·.2)).getD []
 def Tracker.add (t : Tracker) (k : Nat) (e : Ev) : Tracker :=
-  if t.flows.any (·.1 == k) then { flows := t.flows.map fun p => if p.1 == k then (k, p.2 ++ [e]) else p }
-  else { flows := t.flows ++ [(k, [e])] }
+  if t.flows.any (·.1 == k) then { t with flows := t.flows.map fun p => if p.1 == k then (k, p.2 ++ [e]) else p }
+  else { t with flows := t.flows ++ [(k, [e])] }
 
 end Ipfix.C05
